@@ -94,7 +94,7 @@ class SlowCallback:
         if self.delay:
             time.sleep(self.delay)
         f, i = self.names_rev.get(name, (0, 1 + sum(map(ord, name)) % 1000)) if name else (0, 0)   # f = 0: not a data member (directory)
-        self.log.append({"e": "cb", "k": k, "f": f, "i": i, "n": int(n), "thread": threading.get_ident() % 100000})
+        self.log.append({"e": "cb", "k": k, "f": f, "i": i, "n": int(n), "thread": threading.get_ident() % 100000, "cb": self.cbid})
 
 
 def make_callback(py7zr, log, delay, names_rev):
@@ -121,6 +121,7 @@ def make_callback(py7zr, log, delay, names_rev):
 
     cb = CB()
     cb.log, cb.delay, cb.names_rev = log, delay, names_rev
+    cb.cbid = 1
     return cb
 
 
@@ -198,6 +199,9 @@ def run_case(case):
                 pass
 
     P.Worker.extract_single = es
+    o_limit = P.get_memory_limit
+    if case.get("limit"):
+        P.get_memory_limit = lambda: case["limit"]     # several decode iterations per member
     want = sorted(k for k in names if (not case.get("targets")) or names[k] in case["targets"])
     real_sizes = [[len(contents[(f, i)]) for i in range(1, len(sz) + 1)] for f, sz in enumerate(sizes, start=1)]
     trace = [{"e": "arch", "sizes": real_sizes, "damaged": sorted(case.get("damaged", [])), "mode": mode, "delivered": [list(k) for k in want]}]
@@ -206,8 +210,9 @@ def run_case(case):
         objs = [py7zr.SevenZipFile(src, "r", mp=(mode == "process"))]
         if mode == "two":
             objs.append(py7zr.SevenZipFile(path, "r"))
-        cb = make_callback(py7zr, log, {"none": None, "fast": 0, "slow": 0.12}.get(case.get("callback", "none")), names_rev) \
-            if case.get("callback", "none") != "none" else None
+        delay = {"none": None, "fast": 0, "slow": 0.12}.get(case.get("callback", "none"))
+        cb = make_callback(py7zr, log, delay, names_rev) if case.get("callback", "none") != "none" else None
+        cbs = [cb]
         results = [None] * len(objs)
 
         def do(oi):
@@ -218,9 +223,9 @@ def run_case(case):
                 if case.get("sink", "factory") == "path":
                     od = os.path.join(wd, f"out{oi}")
                     if case.get("targets"):
-                        z.extract(od, targets=case["targets"], callback=cb if oi == 0 else None)
+                        z.extract(od, targets=case["targets"], callback=cbs[-1] if oi == 0 else None)
                     else:
-                        z.extractall(od, callback=cb if oi == 0 else None)
+                        z.extractall(od, callback=cbs[-1] if oi == 0 else None)
                     got = {}
                     for k, nm in names.items():
                         p = os.path.join(od, nm)
@@ -229,9 +234,9 @@ def run_case(case):
                 else:
                     fac = GatedFactory(oi)
                     if case.get("targets"):
-                        z.extract(targets=case["targets"], factory=fac, callback=cb if oi == 0 else None)
+                        z.extract(targets=case["targets"], factory=fac, callback=cbs[-1] if oi == 0 else None)
                     else:
-                        z.extractall(factory=fac, callback=cb if oi == 0 else None)
+                        z.extractall(factory=fac, callback=cbs[-1] if oi == 0 else None)
                     got = {names_rev[nm]: p.buf.getvalue() for nm, p in fac.products.items() if nm in names_rev}
                 for k, d in got.items():
                     (res["good"] if d == contents[k] else res["bad"]).append(list(k))
@@ -253,6 +258,10 @@ def run_case(case):
             for _ in range(case.get("repeat", 1) - 1):      # further extractions in the same session, after reset()
                 first = results[0]
                 objs[0].reset()
+                if cb is not None:                           # every extraction reports to its own callback object
+                    nxt = make_callback(py7zr, log, 0 if len(cbs) % 2 else delay, names_rev)
+                    nxt.cbid = len(cbs) + 1
+                    cbs.append(nxt)
                 do(0)
                 if first["raised"] or first["bad"]:
                     results[0] = first
@@ -275,3 +284,4 @@ def run_case(case):
         return {"trace": trace, "extra": extra}
     finally:
         P.Worker.extract_single = orig_es
+        P.get_memory_limit = o_limit
